@@ -299,7 +299,7 @@ def gen_cases(run):
     rng = run.rng
     cases = []
     scenarios = ['shutdown', 'abort', 'handler', 'simerror']
-    n_per = 5 if run.tier == 'quick' else 40
+    n_per = 5 if run.tier == 'quick' else 150
     for scen in scenarios:
         for ph in PHASES:
             # the plain send in every phase, to every destination kind
